@@ -1,5 +1,5 @@
 use crate::error::Converter;
-use crate::xml::E57Tag;
+use crate::xml::{number_text, E57Tag};
 use crate::Error;
 use crate::RecordDataType;
 use crate::RecordValue;
@@ -11,7 +11,7 @@ fn extract_limit(bounds: &Node, tag_name: &str) -> Result<Option<RecordValue>> {
         let type_str = tag
             .attribute("type")
             .invalid_err(format!("Cannot find type attribute of limit '{tag_name}'"))?;
-        let value_str = tag.text().unwrap_or("0");
+        let value_str = number_text(&tag);
         Ok(match type_str {
             "Integer" => Some(RecordValue::Integer(
                 value_str
